@@ -485,17 +485,22 @@ fn conc_case(run: &mut Run, tasks: usize, sends: usize, big: bool, close: bool) 
             got
         });
         let mut hs = vec![];
+        let progress = std::sync::Arc::new(std::sync::atomic::AtomicUsize::new(0));
         let mut expected_records = 0usize;
         for t in 0..tasks {
             let d = pair.c.dtls.clone();
             let len = if big && t % 2 == 0 { 2500 } else { 40 + t };
             expected_records += sends * ((len + 1199) / 1200);
+            let prog = progress.clone();
             hs.push(tokio::spawn(async move {
-                for i in 0..sends { let _ = d.send(Bytes::from(vec![(t + i) as u8; len])).await; if i % 4 == 3 { tokio::task::yield_now().await; } }
+                for i in 0..sends { let _ = d.send(Bytes::from(vec![(t + i) as u8; len])).await;
+                    prog.fetch_add(1, std::sync::atomic::Ordering::SeqCst); tokio::task::yield_now().await; }
             }));
         }
+        // let the senders get going: close() must race them, not precede them
+        if close && tasks > 1 { while progress.load(std::sync::atomic::Ordering::SeqCst) < (tasks * sends) / 3 { tokio::task::yield_now().await; } }
         // close() while the senders are still running: the alert allocates its sequence number concurrently
-        if close { tokio::task::yield_now().await; pair.c.dtls.close(); pair.c.poll_quiesce().await; }
+        if close { pair.c.dtls.close(); pair.c.poll_quiesce().await; }
         for h in hs { let _ = h.await; }
         tokio::time::sleep(std::time::Duration::from_millis(50)).await;
         stop.store(true, std::sync::atomic::Ordering::SeqCst);
@@ -670,6 +675,12 @@ pub fn run(args: &Args) {
                     for (i, l) in &o.lines { run.case("hs", i, l, true); }
                     run.count("handshake_phase_injection_scripts");
                     for (sig, d) in o.fails { if sig.starts_with("rec:") || sig.starts_with("noconn:") || sig.starts_with("state:") { run.fail(&sig, &format!("hs {d}"), &sc.text()); } }
+                    // a discarded record is as good as absent: the handshake around it must still complete
+                    // (judged where the target already holds keys — before that a clear-text handshake message is legal input)
+                    if matches!(sc.rules[0].typ, 200 | 20) && !o.tags.iter().any(|t| t == "both_connected") {
+                        let fin = o.tags.iter().find(|t| t.starts_with("final:")).cloned().unwrap_or_default();
+                        run.fail(&format!("rec:handshake-phase:clear-text-record-disturbed-the-handshake:{}", sc.rules[0].typ), &format!("hs {}", sc.text()), &fin);
+                    }
                     break;
                 }
                 run.count("timing_retry");
@@ -685,7 +696,7 @@ pub fn run(args: &Args) {
     let conc: Vec<(usize, usize, bool, bool)> = if args.tier_thorough {
         vec![(1, 1, false, true), (2, 50, false, true), (4, 100, true, true), (8, 100, false, true), (16, 200, false, true), (16, 50, true, false), (3, 7, true, true),
              (16, 200, true, true), (12, 150, false, true), (5, 200, true, true), (9, 33, false, false), (16, 100, false, true), (7, 77, true, true)]
-    } else { vec![(1, 1, false, true), (4, 20, true, true), (8, 25, false, true), (16, 10, false, false)] };
+    } else { vec![(1, 1, false, true), (4, 20, true, true), (8, 60, false, true), (8, 60, false, true), (12, 40, false, true), (16, 10, false, false)] };
     for (t, s, b, c) in conc { conc_case(&mut run, t, s, b, c); }
     run.notes.insert("scope".into(), serde_json::json!("sessions = fresh real DtlsTransport pair, connected through the harness proxy, then injections at one endpoint; oracle table = AES-128-GCM results computed by the harness from RFC nonce/AAD"));
     run.finish();
